@@ -20,7 +20,7 @@ SPECS["C14"] = (
 SPECS["C15"] = (
  "   C15: re-keying keeps sequence state, switches keys and fails safely.  stream_update_specific / update_template model\n"
  "   stream_update / update_template_streams of srtp.c (after the fix b1bd97f that builds the replacement stream first).",
- "From Srtp Require Import Util Constants KeyLimit Rdb Rdbx Icm World Stream Rtp Session TableProofs UpdateProofs.",
+ "From Srtp Require Import Util Constants KeyLimit Rdb Rdbx Icm World Stream Rtp Session TableProofs UpdateProofs UpdateTemplateProofs.",
  [("building a stream from a policy never touches the session", "UpdateProofs.v", "build_stream_session"),
   ("... and releases everything if it fails", "UpdateProofs.v", "build_stream_exit"),
   ("an update of an explicit stream that returns ANY error leaves the whole session (every stream, its keys, its replay state) and the live heap as they were", "UpdateProofs.v", "stream_update_specific_exit_cap"),
@@ -28,7 +28,11 @@ SPECS["C15"] = (
   ("... and a rollover counter imposed by set_roc that no packet has taken up yet (fix 1db9411)", "UpdateProofs.v", "stream_update_specific_keeps_pending_roc"),
   ("wildcard update: every refusal before streams are moved leaves the session unchanged", "UpdateProofs.v", "ut_pre_exit"),
   ("", "UpdateProofs.v", "ut_pre_exit_heap"),
-  ("", "UpdateProofs.v", "update_template_phases")],
+  ("", "UpdateProofs.v", "update_template_phases"),
+  ("a SUCCESSFUL wildcard update: new template, every explicit stream untouched, every former clone re-cloned from the new template for the same SSRC", "UpdateTemplateProofs.v", "update_template_ok_effect"),
+  ("... explicit streams are the very same records", "UpdateTemplateProofs.v", "update_template_explicit_untouched"),
+  ("... a former clone keeps ROC, highest sequence number, SRTCP window and a pending ROC; keys are the new template's; its SRTP replay bit mask starts empty (known finding update-clears-rtp-replay-window)", "UpdateTemplateProofs.v", "update_template_clone_keeps_state"),
+  ("... no SSRC appears or disappears", "UpdateTemplateProofs.v", "update_template_same_ssrcs")],
  "")
 SPECS["C16"] = (
  "   C16: srtp_stream_set_roc takes effect and later wraps still advance the ROC (after the fix f91f198).\n"
@@ -288,7 +292,7 @@ _ext("C10", "Aead AeadBoundsRtp AeadBoundsRtcp",
   ("", "AeadBoundsRtp.v", "unprotect_aead_overlong_extension_refused"),
   ("AES-GCM SRTCP", "AeadBoundsRtcp.v", "protect_rtcp_aead_no_oob"),
   ("", "AeadBoundsRtcp.v", "unprotect_rtcp_aead_no_oob")], _AEAD_NOTE)
-_ext("C11", "Aead AeadBoundsRtp AeadBoundsRtcp",
+_ext("C11", "Aead AeadBoundsRtp AeadBoundsRtcp TrailerProofs",
  [("AES-GCM: output length = input + tag + MKI, within capacity", "AeadBoundsRtp.v", "protect_aead_length"),
   ("", "AeadBoundsRtp.v", "protect_aead_small_buffer_refused"),
   ("", "AeadBoundsRtp.v", "unprotect_aead_length"),
@@ -296,7 +300,14 @@ _ext("C11", "Aead AeadBoundsRtp AeadBoundsRtcp",
   ("", "AeadBoundsRtcp.v", "protect_rtcp_aead_small_buffer_status"),
   ("", "AeadBoundsRtcp.v", "unprotect_rtcp_aead_length"),
   ("nothing at or beyond the RETURNED length is written (stronger than the capacity bound; the unencrypted-SRTCP copy used to violate it)", "AeadBoundsRtcp.v", "protect_rtcp_aead_writes_below_length"),
-  ("", "AeadBoundsRtcp.v", "unprotect_rtcp_aead_writes_below_length")], _AEAD_NOTE)
+  ("", "AeadBoundsRtcp.v", "unprotect_rtcp_aead_writes_below_length"),
+  ("the trailer-length QUERY: it is the maximum over the template and every stream of the session (closed form), so it covers every stream that can process a packet", "TrailerProofs.v", "trailer_length_eq"),
+  ("", "TrailerProofs.v", "trailer_length_ok_covers"),
+  ("it fails (bad_param) exactly when no stream answers for that key index", "TrailerProofs.v", "trailer_length_fails_iff"),
+  ("what srtp_protect appends is never more than the query on that session reports (all four packet functions)", "TrailerProofs.v", "protect_within_query"),
+  ("", "TrailerProofs.v", "protect_rtcp_within_query"),
+  ("", "TrailerProofs.v", "protect_aead_within_query"),
+  ("", "TrailerProofs.v", "protect_rtcp_aead_within_query")], _AEAD_NOTE)
 _ext("C12", "Aead AeadRoundTripRtcp AeadRoundTripRtp",
  [("AES-GCM: srtp_unprotect_aead refines a pure function for every input (streams without cryptex)", "AeadRoundTripRtp.v", "unprotect_aead_refines"),
   ("", "AeadRoundTripRtp.v", "unprotect_aead_alias_independent"),
